@@ -84,8 +84,12 @@ def op_strategy(draw):
     if k == 'burst':
         # rebuild followed by a few targeted registrations, no lookups
         # in between
+        # last element: keep registering until the registry's change
+        # counter is back at the value it had before the rebuild (if the
+        # rebuild lowered it): a verifying registry below must still
+        # notice (seed C05b)
         return ['burst', draw(IDX), draw(st.integers(0, 3)), draw(IDX),
-                draw(st.integers(0, 40))]
+                draw(st.integers(0, 40)), draw(st.booleans())]
     if k == 'tspec':
         return ['tspec', draw(IDX), draw(st.integers(0, 40)),
                 draw(st.lists(IDX, min_size=1, max_size=2)),
@@ -279,8 +283,14 @@ def run_case(case, cfg, out):
     def recheck(stage, rot=0, subset=False):
         twin = build_twin()
         keys = queried[-30:]
-        rot = rot % len(keys)
-        keys = keys[rot:] + keys[:rot]
+        if rot % 2:
+            # the key queried last goes first: the first lookup a registry
+            # serves after a mutation is the one that has to notice it
+            # (a later one finds the caches already dropped)
+            keys = keys[-1:] + keys[:-1]
+        else:
+            rot = rot % len(keys)
+            keys = keys[rot:] + keys[:rot]
         if subset:
             keys = keys[:1 + len(keys) // 3]
         for key in keys:
@@ -480,10 +490,14 @@ def run_case(case, cfg, out):
             classImplementsOnly(X)
             out.tag('classcut')
         elif kind == 'burst':
-            _, r, count, which, pick = op
+            _, r, count, which, pick = op[:5]
             r = r % len(U.regs)
+            g0 = U.regs[r]._generation
             U.regs[r].rebuild()
             log.append(('rebuild', r))
+            if len(op) > 5 and op[5] and U.regs[r]._generation < g0:
+                count = min(g0 - U.regs[r]._generation, 15)
+                out.tag('rebuild_burst_counter_matched')
             for j in range(count):
                 if queried:
                     key = queried[(which + j) % len(queried)]
